@@ -466,7 +466,7 @@ theorem sim_silent {cfg : Config} {d d' : Dev} {b b' : Book} {ev : Ev} (hinv : I
   have hd := hinv.dinv
   have hd' : DInv cfg d' :=
     ⟨f1.trans hd.cfg_eq, f10.trans hd.dead, f8.trans hd.ana, f4 ▸ hd.ch, f6 ▸ hd.map, f5.trans hd.vel,
-      f2 ▸ hd.oct, f3 ▸ hd.semi, f7 ▸ hd.wf⟩
+      trivial, trivial, f7 ▸ hd.wf⟩
   have hst : stateKeyOf (StObs.ofDev d') = stateKeyOf (StObs.ofDev d) := by
     simp only [stateKeyOf, StObs.ofDev, f2, f3, f4, f6]
   apply step_finish i hinv he hd' hdown
